@@ -190,3 +190,18 @@ theorem mortonT_array_safe (cv : Conv) (sz c : List Nat) (cells : List (List Num
   simpa only [he] using this
 
 end Covfie.C15
+
+namespace Covfie.C15
+/-- the portable Morton loop `idx |= (c[j] & (1UL << i)) << (i * (N − 1) + j)` for `i < 64 / N`, `j < N`: both shift
+    amounts stay below the width of `unsigned long` (a shift by ≥ 64 would be undefined behaviour) -/
+theorem morton_shifts_defined (N i j : Nat) (hi : i < 64 / N) (hj : j < N) :
+    i < 64 ∧ i * (N - 1) + j < 64 := by
+  have h1 : (i + 1) * N ≤ 64 := Nat.le_trans (Nat.mul_le_mul_right N hi) (Nat.div_mul_le_self 64 N)
+  obtain ⟨n, rfl⟩ : ∃ n, N = n + 1 := ⟨N - 1, by omega⟩
+  have e : (i + 1) * (n + 1) = i * n + i + n + 1 := by
+    rw [Nat.add_mul, Nat.mul_add, Nat.one_mul, Nat.mul_one]; omega
+  rw [e] at h1
+  have : n + 1 - 1 = n := by omega
+  rw [this]
+  omega
+end Covfie.C15
